@@ -417,26 +417,61 @@ def real_processes(ctx):
         ctx.violation("real processes (supporting exploration): " + n, {"kind": "real-process", "note": n})
 
 
+BOOT_FAILURES = [
+    # (name, application, configuration file text or None, expected exit statuses)
+    ("the import of the application raises", "bootfail:app", None, (3,)),
+    ("the application object does not exist", "app:no_such_callable", None, (4,)),
+    ("the post_worker_init hook raises (the last step of the boot)", "app:app",
+     "def post_worker_init(worker):\n    raise RuntimeError('post_worker_init failed')\n", (3,)),
+    ("the post_fork hook raises (the first step in the child)", "app:app",
+     "def post_fork(server, worker):\n    raise RuntimeError('post_fork failed')\n", (3,)),
+]
+
+
 def real_boot_failure(ctx):
-    """real processes: an application that cannot boot.  One worker, and four workers failing at the same moment (the
-    second SIGCHLD arrives while halt() runs): the master must exit with the boot-failure status (3 or 4), not 1, and
-    must not leave its pid file behind."""
+    """real processes: a worker that cannot boot, in every way the boot can fail (application import, application lookup, the
+    hooks run in the child before the main loop).  One worker, and four workers failing at the same moment (the second SIGCHLD
+    arrives while halt() runs): the master must exit with the boot-failure status (3 or 4), not 1, must not leave its pid file
+    behind, and must not have respawned the worker over and over before it gave up."""
     import os
+    import tempfile
     import lib_realproc as R
     notes = []
-    for nw in (1, 4):
-        srv = R.Server(workers=nw, app="bootfail:app", graceful=3)
-        try:
-            srv.wait_for(lambda: srv.proc.poll() is not None, 25)
-            rc = srv.proc.poll()
-            pidfile_left = os.path.exists(srv.pidfile)
-            ctx.hist("real_boot_failure", "workers=%d exit=%r pidfile_left=%s" % (nw, rc, pidfile_left))
-            if rc is None:
-                notes.append("boot failure with %d worker(s): the master did not exit" % nw)
-            elif rc not in (3, 4) or pidfile_left:
-                notes.append("boot failure with %d worker(s): master exit status %r instead of 3 / 4, pid file left: %s" % (nw, rc, pidfile_left))
-        finally:
-            srv.stop()
+    quick = ctx.quick()
+    for name, app, conf, want in BOOT_FAILURES:
+        for nw in ((1, 4) if (conf is None and app == "bootfail:app") or not quick else (2,)):
+            extra = ()
+            conf_path = None
+            if conf is not None:
+                base = vlib.VERIF / ".build" / "scratch"
+                base.mkdir(parents=True, exist_ok=True)
+                fd, conf_path = tempfile.mkstemp(prefix="bootconf-", suffix=".py", dir=str(base))
+                os.write(fd, conf.encode())
+                os.close(fd)
+                extra = ("-c", conf_path)
+            srv = R.Server(workers=nw, app=app, graceful=3, extra=extra)
+            try:
+                srv.wait_for(lambda: srv.proc.poll() is not None, 25)
+                rc = srv.proc.poll()
+                pidfile_left = os.path.exists(srv.pidfile)
+                boots = srv.logtext().count("Booting worker with pid")
+                ctx.count_case(("real-boot-failure", name, nw), True)
+                ctx.hist("real_boot_failure", "%s: workers=%d exit=%r pidfile_left=%s boots=%d" % (name, nw, rc, pidfile_left, boots))
+                if rc is None:
+                    notes.append("%s, %d worker(s): the master did not exit within 25 s (the worker was forked %d times: respawned "
+                                 "for ever instead of stopping the server)" % (name, nw, boots))
+                elif rc not in want or pidfile_left:
+                    notes.append("%s, %d worker(s): master exit status %r instead of %s, pid file left: %s" % (
+                        name, nw, rc, " / ".join(map(str, want)), pidfile_left))
+                elif boots > 3 * nw + 2:
+                    notes.append("%s, %d worker(s): the worker was forked %d times before the master stopped" % (name, nw, boots))
+            finally:
+                srv.stop()
+                if conf_path:
+                    try:
+                        os.unlink(conf_path)
+                    except OSError:
+                        pass
     return notes
 
 
